@@ -147,6 +147,26 @@ def to_number(value: JSValue) -> Union[int, float]:
     return float("nan")
 
 
+def to_integer(value: JSValue, default: int = 0) -> int:
+    """ToIntegerOrInfinity for index, count and digit arguments.
+
+    undefined gives `default` (0, or the length for an optional end
+    position), NaN gives 0, fractions are truncated and the infinities are
+    clamped to +-2**53 so that the result is always a Python int that
+    comparisons, min/max and slicing accept.
+    """
+    if value is UNDEFINED:
+        return default
+    n = to_number(value)
+    if n != n:
+        return 0
+    if n == math.inf:
+        return 2**53
+    if n == -math.inf:
+        return -(2**53)
+    return int(n)
+
+
 def js_pow(base: Union[int, float], exponent: Union[int, float]) -> Union[int, float]:
     """ECMAScript Number::exponentiate (the ** operator and Math.pow).
 
